@@ -1,6 +1,9 @@
-(* C09: NexusWriter._link_blocks generated from the source equals the data-set model's link_blocks *)
+(* C09: NexusWriter._link_blocks and NexusWriter._get_block_title generated from the source equal the
+   data-set model's link_blocks / get_block_title (whose loop is uniq_title) *)
 From Coq Require Import ZArith List Bool.
+From Coq Require Import Arith.
 From DV Require Import Model.PyPrims Model.C09AlphaTypes Model.C09Model Model.C09Prims Model.C09Nexus Model.C09Dataset Gen.CharIO.
+From DV Require Import Proofs.C09Dataset.
 Import ListNotations.
 Open Scope Z_scope.
 
@@ -9,4 +12,104 @@ Lemma gen_link_blocks_eq : forall (sbt : option bool) (namespaces : list unit),
 Proof.
   intros sbt ns. unfold NexusWriter_link_blocks, link_blocks. destruct sbt; [reflexivity|].
   destruct (1 <? len ns); reflexivity.
+Qed.
+
+(* ---- _get_block_title ---- *)
+
+Lemma title_block_map_keys : forall given, map fst (title_block_map given) = map snd given.
+Proof. induction given as [|[b t] r IH]; simpl; [reflexivity|]. rewrite IH. reflexivity. Qed.
+
+Lemma tdict_set_fresh : forall d k v, text_mem k (map fst d) = false -> tdict_set d k v = d ++ [(k, v)].
+Proof.
+  induction d as [|[j w] r IH]; intros k v H; simpl in *; [reflexivity|].
+  apply orb_false_iff in H. destruct H as [H1 H2]. rewrite H1. rewrite (IH _ _ H2). reflexivity.
+Qed.
+
+Lemma wdict_contains_title : forall given b,
+  wdict_contains given b = match title_of_block given b with Some _ => true | None => false end.
+Proof.
+  induction given as [|[j t] r IH]; intro b; simpl; [reflexivity|].
+  destruct (Nat.eqb b j); simpl; [reflexivity|]. apply IH.
+Qed.
+
+Lemma wdict_get_title : forall given b t, title_of_block given b = Some t -> wdict_get given b = Ok t.
+Proof.
+  induction given as [|[j u] r IH]; intros b t H; simpl in *; [discriminate|].
+  destruct (Nat.eqb b j); [inversion H; reflexivity | apply IH; exact H].
+Qed.
+
+Lemma wdict_set_fresh : forall given b t, title_of_block given b = None -> wdict_set given b t = given ++ [(b, t)].
+Proof.
+  induction given as [|[j u] r IH]; intros b t H; simpl in *; [reflexivity|].
+  destruct (Nat.eqb b j); [discriminate|]. rewrite (IH _ _ H). reflexivity.
+Qed.
+
+Lemma uniq_title_S : forall esc f l used idx t,
+  uniq_title esc (S f) l used idx t
+  = if text_mem t used then uniq_title esc f l used (idx + 1) (esc (l ++ 46 :: render_nat idx)) else Ok t.
+Proof. reflexivity. Qed.
+
+(* the generated while loop is uniq_title; the counter is not used after the loop *)
+Lemma while_uniq_title : forall (esc : text -> text) (A : Type) (k : text -> res A) (l : text) (d : tdict) f idx t,
+  (do x <- while_res f (fun carried_ : text * Z => let '(title, idx) := carried_ in tdict_contains d title)
+                      (fun carried_ : text * Z => let '(title, idx) := carried_ in
+                         let raw_title := l ++ [46] ++ py_int_str idx in
+                         let title := esc raw_title in
+                         let idx := idx + 1 in Ok (title, idx)) (t, idx) ;;
+   let '(title, idx) := x in k title)
+  = do t' <- uniq_title esc f l (map fst d) idx t ;; k t'.
+Proof.
+  intros esc A k l d. induction f as [|f IH]; intros idx t; [reflexivity|].
+  rewrite uniq_title_S. cbn [while_res]. unfold tdict_contains at 1.
+  destruct (text_mem t (map fst d)); [|reflexivity].
+  cbn [bind]. rewrite IH. reflexivity.
+Qed.
+
+Lemma gen_get_block_title_eq : forall (esc : bool -> bool -> text -> text) (idstr : nat -> text) (fuel : nat)
+    (sbt : option bool) (namespaces : list unit) (ps uu : bool) (label : option text) (given : list (nat * text)) (b : nat),
+  NexusWriter_get_block_title esc idstr fuel sbt namespaces ps uu label (title_block_map given) given b
+  = do x <- get_block_title (esc ps (negb uu)) idstr fuel (link_blocks sbt (len namespaces)) given b label ;;
+    Ok (title_block_map (fst x), fst x, snd x).
+Proof.
+  intros. unfold NexusWriter_get_block_title, get_block_title. rewrite gen_link_blocks_eq.
+  destruct (negb (link_blocks sbt (len namespaces))); [reflexivity|].
+  rewrite wdict_contains_title. destruct (title_of_block given b) as [t|] eqn:T.
+  - rewrite (wdict_get_title _ _ _ T). reflexivity.
+  - match goal with |- bind ?X _ = _ =>
+      assert (S : X = Ok (title_source idstr b label)) by (destruct label as [[|c r]|]; reflexivity)
+    end.
+    rewrite S. cbn [bind]. cbv zeta.
+    rewrite (while_uniq_title (esc ps (negb uu))). rewrite title_block_map_keys.
+    destruct (uniq_title (esc ps (negb uu)) fuel (title_source idstr b label) (map snd given) 1
+                (esc ps (negb uu) (title_source idstr b label))) as [t| |] eqn:U; [|reflexivity|reflexivity].
+    cbn [bind fst snd]. apply uniq_title_fresh in U.
+    rewrite tdict_set_fresh by (rewrite title_block_map_keys; exact U).
+    rewrite (wdict_set_fresh _ _ _ T). unfold title_block_map. rewrite map_app. reflexivity.
+Qed.
+
+(* blocks that each ask once get the titles of assign_titles *)
+Lemma title_of_block_app : forall given b j t, title_of_block (given ++ [(j, t)]) b
+  = match title_of_block given b with Some u => Some u | None => if Nat.eqb b j then Some t else None end.
+Proof.
+  induction given as [|[i u] r IH]; intros; simpl; [reflexivity|].
+  destruct (Nat.eqb b i); [reflexivity | apply IH].
+Qed.
+
+Lemma request_titles_assign : forall (esc : text -> text) (idstr : nat -> text) blocks given,
+  NoDup (map fst blocks) ->
+  (forall b, In b (map fst blocks) -> title_of_block given b = None) ->
+  request_titles esc idstr blocks given
+  = assign_titles esc (map (fun x => title_source idstr (fst x) (snd x)) blocks) (map snd given).
+Proof.
+  intros esc idstr. induction blocks as [|[b l] r IH]; intros given N F; [reflexivity|].
+  cbn [request_titles assign_titles map fst snd]. unfold get_block_title. cbn [negb].
+  rewrite (F b) by (left; reflexivity). rewrite map_length.
+  destruct (uniq_title esc (S (length given)) (title_source idstr b l) (map snd given) 1 (esc (title_source idstr b l)))
+    as [t| |]; [|reflexivity|reflexivity].
+  cbn [bind fst snd]. inversion N as [|x xs NI N']; subst.
+  rewrite IH.
+  - rewrite map_app. reflexivity.
+  - exact N'.
+  - intros b' I. rewrite title_of_block_app. rewrite (F b') by (right; exact I).
+    destruct (Nat.eqb b' b) eqn:E; [|reflexivity]. apply Nat.eqb_eq in E. subst. contradiction.
 Qed.
